@@ -20,7 +20,16 @@ Relational oracles (two executions the property says must agree) plus the dense 
      (own einsum on <= 3 cells), bmat over elemental-data / 1-D entries; COOData.dot for vectors that are not float64
      and for complex data;
  (i) second-order (curved) and wedge meshes; tolocal(basis=fb) on subsets of boundary facets and on interior facets
-     (a facet is added to every cell that has it), asm over a partition of a facet set.
+     (a facet is added to every cell that has it), asm over a partition of a facet set;
+ (j) adding elemental data of DIFFERENT data types (float64, complex128, float32, int64, complex64 as produced by
+     Form(dtype=...); functionals real / complex) in both orders, with + and with sum() over lists starting with every
+     type, second operand on the boundary facets / a cell subset / the same cells: toarray, tocsr, todefault, dot of the
+     sum against the harness' own scatter-add of the operands in double precision and against the sum of the operands'
+     own conversions;
+ (k) the splitting clauses (a) and the block clause (b) on FACET bases of composite / vector elements with P0 / DG
+     components: boundary, oriented sets of interior facets (facets_around with and without flip, a named oriented
+     interface, facets_satisfying(normal=)) with both orientation flags present, InteriorFacetBasis side 0 / 1; a
+     probe with the flags reversed shows that the fields do differ between the two cells of the flag-1 facets.
 """
 from __future__ import annotations
 
@@ -36,7 +45,9 @@ RULE = ("random meshes x composite elements of 2-3 components with different nod
         "wrappers, Vector x scalar composites x coupling integrands drawn per component pair x random coefficient vectors x "
         "random partitions of the cells / of facet sets x rectangular trial/test pairs x first-order, second-order (curved) "
         "and wedge meshes x linear / bilinear / trilinear forms and functionals x products of basis lists with w.idx x "
-        "vector data types of COOData.dot; distinct key = (component layout, operation, "
+        "vector data types of COOData.dot x ordered pairs / triples of data types of added elemental data x facet bases over "
+        "the boundary, oriented interior interfaces (both flags) and either side of the interior facets; "
+        "distinct key = (component layout, operation, "
         "mesh class); non-trivial iff the components differ in >= 1 entity count or trial != test size")
 TRACK = ["skfem.element.element_vector:ElementVector.gbasis", "skfem.element.element_composite:ElementComposite._deduce_bfun",
          "skfem.assembly.basis.abstract_basis:AbstractBasis.split_indices", "skfem.assembly.basis.abstract_basis:AbstractBasis.split_bases",
@@ -57,7 +68,18 @@ REQUIRED_REACH = ["rectangular-local", "vector-element", "composite-3-components
                   "vector-element-blocks", "vector-element-blocks-components-differ-from-dimension", "nested-split",
                   "linear-elemental-data", "functional-elemental-data", "trilinear-elemental-data", "bmat-of-elemental-data",
                   "compositebasis-mul-spelling", "compositebasis-matmul-spelling", "linear-form-block",
-                  "second-order-mesh", "wedge-mesh", "facet-tolocal:boundary-subset", "facet-tolocal:interior-subset", "facet-partition"]
+                  "second-order-mesh", "wedge-mesh", "facet-tolocal:boundary-subset", "facet-tolocal:interior-subset", "facet-partition",
+                  # adding elemental data of different data types
+                  "coo-add:left-operand-of-narrower-dtype", "coo-add:right-operand-of-narrower-dtype", "coo-add:real-plus-complex",
+                  "coo-add:complex-plus-real", "coo-add:sum-of-list-of-mixed-dtypes", "coo-add:mixed-dtypes:bilinear",
+                  "coo-add:mixed-dtypes:linear", "coo-add:mixed-dtypes:functional", "coo-add:second-operand-on-boundary-facets",
+                  "coo-add:second-operand-on-cell-subset",
+                  # splitting on facet bases
+                  "split-facet:boundary", "split-facet:facets-around", "split-facet:facets-around-flip",
+                  "split-facet:named-oriented-interface", "split-facet:facets-satisfying-normal", "split-facet:interior-side0",
+                  "split-facet:interior-side1", "split-facet:interior-oriented-side1", "split-facet:both-orientation-flags-present",
+                  "split-facet:trace-differs-between-the-two-cells-of-flag-1-facets", "split-facet:vector-element",
+                  "split-facet:composite-element", "split-facet:3d", "split-facet:nested-split", "blocks-on-oriented-facet-basis"]
 
 
 def field_parts(f):
@@ -102,7 +124,9 @@ def with_arity(fn, n):
     return eval(f"lambda {names}: fn({names})", {"fn": fn})
 
 
-def pick(ctx, rng, kind, k):
+def pick(ctx, rng, kind, k, recs=None):
+    if recs is not None:
+        return pick_mesh(ctx, rng, kind, k, recs[k % len(recs)])
     recs = EL.composites(kind)
     base = [r for r in EL.of_kind(kind) if r.family == "h1" and not r.skeleton and r.mesh_req == "any"
             and r.name in ("ElementLineP2", "ElementTriP2", "ElementTriP1B", "ElementTriCR", "ElementQuad2", "ElementQuadS2",
@@ -114,7 +138,10 @@ def pick(ctx, rng, kind, k):
     if kind == "wedge":
         w1 = EL.by_name("ElementWedge1")
         recs = [EL.vector(w1), EL.composite(w1, w1), EL.vector(w1, 2), EL.composite(EL.vector(w1), w1)]
-    rec = recs[k % len(recs)]
+    return pick_mesh(ctx, rng, kind, k, recs[k % len(recs)])
+
+
+def pick_mesh(ctx, rng, kind, k, rec):
     mc = G.first_order(rng, kind)
     tries = 0
     cap = ctx.scale(16, 40) if kind in ("tet", "hex") else ctx.scale(24, 60)
@@ -224,14 +251,172 @@ def split_interp(ctx, k, kind):
     ctx.sample(dict(tag, N=int(basis.N), components=len(parts)), per_family=1)
 
 
-def vector_blocks(ctx, rng, rec, mc, mesh):
-    """The block clause for ElementVector(e, n): the form sum_ij c_ij u_i v_j + d_ij d_a u_i d_b v_j coupled over the
-    components equals, under split_indices, the n x n block matrix of scalar forms on the split_bases."""
+PK = {"line": ("ElementLineP0", "ElementLineP1", "ElementLineP2"), "tri": ("ElementTriP0", "ElementTriP1", "ElementTriP2"),
+      "quad": ("ElementQuad0", "ElementQuad1", "ElementQuad2"), "tet": ("ElementTetP0", "ElementTetP1", "ElementTetP2"),
+      "hex": ("ElementHex0", "ElementHex1", "ElementHex2")}
+
+
+def facet_recs(kind):
+    """Composite and vector elements for the facet-basis workloads: the composites of the shared registry (different
+    entity layouts, H(div)/H(curl) components, vector x scalar) alternating with wrappers that have cellwise constant
+    / discontinuous components (their VALUES jump across an interior facet; of the continuous components the gradients
+    do)."""
+    p0, p1, p2 = (EL.by_name(n) for n in PK[kind])
+    extra = [EL.composite(EL.vector(p2, 2 if kind == "line" else None), p0), EL.composite(p1, EL.dg(p1)), EL.vector(EL.dg(p1), 2 if kind == "line" else None),
+             EL.composite(EL.dg(p2), p0, p1), EL.vector(p0, 2), EL.vector(p2, 2 if kind == "line" else None),
+             EL.vector(p1, {"line": 3, "tri": 3, "quad": 1, "tet": 2, "hex": 2}[kind])]
+    reg = [r for r in EL.composites(kind) if r.facet_basis]
+    out = []
+    for i in range(max(len(extra), len(reg))):
+        out += extra[i:i + 1] + reg[i:i + 1]
+    return out
+
+
+def compare_split(ctx, basis, x, is_vec, variant, tag):
+    """basis.split(x): every component interpolated through its own component basis equals the corresponding rows of
+    the whole interpolated at the same quadrature points, field by field (value, grad, div, curl, hess); nested for the
+    vector components of a composite."""
+    M = "component-interpolation-equals-whole"
+    whole = basis.interpolate(x)
+    parts = basis.split(x)
+    ncomp = basis.elem.dim if is_vec else len(as_tuple(whole))
+    ctx.check(M, len(parts) == ncomp, mech=f"split-facet:{variant}:number-of-components", got=len(parts), want=ncomp, **tag)
+    if len(parts) != ncomp:
+        return
+    xs = float(np.abs(x).max()) * 1e-3
+    for ci, (xi, bi) in enumerate(parts):
+        ctx.check(M, type(bi) is type(basis) and bi.nelems == basis.nelems and np.array_equal(np.asarray(bi.find), np.asarray(basis.find)),
+                  mech=f"split-facet:{variant}:component-basis-on-other-facets", component=ci, **tag)
+        fi = bi.interpolate(xi)
+        ref = {nm: v[ci] for nm, v in field_parts(whole).items()} if is_vec else field_parts(as_tuple(whole)[ci])
+        got = field_parts(fi[0] if isinstance(fi, tuple) else fi)
+        for nm, r in ref.items():
+            if nm not in got:
+                ctx.check(M, False, mech=f"component-field-missing:{nm}", component=ci, variant=variant, **tag)
+                continue
+            ctx.close(M, got[nm], r, rtol=1e-11, scale=float(np.abs(r).max()) + xs,
+                      mech=f"split-facet:{variant}:component-interp:{'Vector' if is_vec else 'Composite'}", component=ci, field=nm, **tag)
+        if not is_vec and type(bi.elem).__name__ == "ElementVector":
+            wv = field_parts(as_tuple(whole)[ci])
+            for cj, (xij, bij) in enumerate(bi.split(xi)):
+                fij = field_parts(bij.interpolate(xij))
+                for nm in ("value", "grad"):
+                    ctx.close(M, fij[nm], wv[nm][cj], rtol=1e-11, scale=float(np.abs(wv[nm][cj]).max()) + xs,
+                              mech=f"split-facet:{variant}:component-interp:nested-split", component=(ci, cj), field=nm, **tag)
+            ctx.reached("split-facet:nested-split")
+
+
+def split_facets(ctx, k, kind):
+    """The splitting clauses on FACET bases of composite / vector elements: over the boundary, over oriented sets of
+    interior facets (mesh.facets_around(cells) with and without flip, a named oriented interface with both orientation
+    flags, facets_satisfying(..., normal=n)) and over the interior facets from side 0 and side 1.  The trace is taken
+    from ONE of the two cells of a facet, and discontinuous quantities (values of P0 / DG components, gradients of the
+    continuous ones) tell the two apart: the component bases of split()/split_bases() must sit on the same cells as the
+    whole.  Then the block clause on one of the oriented bases."""
     import skfem
-    elem = rec.make()
+    from skfem.generic_utils import OrientedBoundary
+    rng = ctx.rng()
+    rec, mc, mesh = pick(ctx, rng, kind, k, recs=facet_recs(kind))
+    is_vec = rec.name.startswith("Vector(")
+    f2t = np.asarray(mesh.f2t)
+    nt = mesh.t.shape[1]
+    interior = np.nonzero(f2t[1] != -1)[0].astype(np.int32)
+    tag = dict(elem=rec.name, mesh=type(mesh).__name__, desc=mc.desc)
+    variants = [("boundary", mesh, skfem.FacetBasis, None, {})]
+    if interior.size >= 2:
+        S = np.sort(rng.choice(nt, size=int(rng.integers(max(1, nt // 3), max(2, (2 * nt) // 3 + 1))), replace=False)).astype(np.int32)
+        variants.append(("facets-around", mesh, skfem.FacetBasis, mesh.facets_around(S), {}))
+        obf = mesh.facets_around(S, flip=True)                  # on the boundary of the mesh there is no outer cell
+        keep = f2t[1, np.asarray(obf)] != -1
+        if keep.any():
+            variants.append(("facets-around-flip", mesh, skfem.FacetBasis,
+                             OrientedBoundary(np.asarray(obf)[keep], np.asarray(obf.ori)[keep]), {}))
+        F = np.sort(rng.choice(interior, size=max(2, (2 * interior.size) // 3), replace=False)).astype(np.int32)
+        ori = rng.integers(0, 2, size=F.size)
+        two = rng.permutation(F.size)[:2]
+        ori[two[0]], ori[two[1]] = 0, 1                          # both flags are present
+        m2 = mesh.with_boundaries({"ifc": OrientedBoundary(F, ori)})
+        if (np.array_equal(np.asarray(m2.f2t), f2t) and np.array_equal(np.asarray(m2.t), np.asarray(mesh.t))
+                and np.array_equal(np.asarray(m2.boundaries["ifc"]), F) and np.array_equal(np.asarray(m2.boundaries["ifc"].ori), ori)):
+            variants.append(("named-oriented-interface", m2, skfem.FacetBasis, "ifc", {}))
+        else:
+            ctx.drop("with_boundaries-renumbered-the-mesh")
+        mask = np.zeros(f2t.shape[1], dtype=bool)
+        mask[interior] = True
+        variants.append(("facets-satisfying-normal", mesh, skfem.FacetBasis,
+                         mesh.facets_satisfying(lambda mid: mask, normal=rng.standard_normal(mesh.dim())), {}))
+        variants.append(("interior-side0", mesh, skfem.InteriorFacetBasis, None, {"side": 0}))
+        variants.append(("interior-side1", mesh, skfem.InteriorFacetBasis, None, {"side": 1}))
+        variants.append(("interior-oriented-side1", mesh, skfem.InteriorFacetBasis, OrientedBoundary(F, ori), {"side": 1}))
+    else:
+        ctx.drop("fewer-than-two-interior-facets")
+    oriented = []
+    for vname, m, cls, facets, kw in variants:
+        b = cls(m, rec.make(), **kw) if facets is None else cls(m, rec.make(), facets=facets, **kw)
+        if b.nelems == 0:
+            ctx.drop("empty-facet-set:" + vname)
+            continue
+        x = rng.standard_normal(b.N)
+        compare_split(ctx, b, x, is_vec, vname, tag)
+        ctx.reached("split-facet:" + vname)
+        ctx.reached("split-facet:" + ("vector-element" if is_vec else "composite-element"))
+        if mesh.dim() == 3:
+            ctx.reached("split-facet:3d")
+        find = b.find
+        if type(find).__name__ == "OrientedBoundary" and getattr(find, "ori", None) is not None:
+            o = np.asarray(find.ori)
+            both = bool((o == 1).any() and (o == 0).any())
+            if both:
+                ctx.reached("split-facet:both-orientation-flags-present")
+            oriented.append((vname, b))
+            # is the input able to tell the two cells of a facet apart?  The whole interpolated with the flags reversed
+            # (the other cell of every facet) must differ on the facets with flag 1
+            if (f2t[1, np.asarray(find)] != -1).all() and (o == 1).any():
+                other = cls(m, rec.make(), facets=OrientedBoundary(np.asarray(find), 1 - o), quadrature=b.quadrature, **kw)
+                w0, w1 = as_tuple(b.interpolate(x)), as_tuple(other.interpolate(x))
+                differs = False
+                for f0, f1 in zip(w0, w1):
+                    p0, p1 = field_parts(f0), field_parts(f1)
+                    for nm in p0:
+                        a0, a1 = p0[nm][..., o == 1, :], p1[nm][..., o == 1, :]
+                        if np.abs(a0 - a1).max() > 1e-6 * (np.abs(a0).max() + 1e-300):
+                            differs = True
+                if differs:
+                    ctx.reached("split-facet:trace-differs-between-the-two-cells-of-flag-1-facets")
+        elif vname == "interior-side1":
+            oriented.append((vname, b))
+    # the block clause on one of the bases that do not sit on the first cell of every facet
+    if oriented:
+        vname, b = oriented[k % len(oriented)]
+        where = ":facet-basis:" + vname
+        if is_vec:
+            vector_blocks(ctx, rng, rec, mc, b.mesh, basis=b, where=where)
+        else:
+            terms, ncu, ncv = make_coupling(rng, b, b)
+            A = skfem.BilinearForm(bil_from(terms, ncu)).assemble(b).toarray()
+            ixs, sb = b.split_indices(), b.split_bases()
+            scale = float(np.abs(A).max()) + 1e-300
+            for cu in range(ncu):
+                for cv in range(ncv):
+                    sub = [(c, (0,) + ou[1:], (0,) + ov[1:]) for c, ou, ov in terms if (ou[0], ov[0]) == (cu, cv)]
+                    B = skfem.BilinearForm(bil_from(sub, 1)).assemble(sb[cu], sb[cv])
+                    ctx.close("coupled-equals-blocks", A[np.ix_(ixs[cv], ixs[cu])], B.toarray(), rtol=1e-11, scale=scale,
+                              mech="coupled-block:Composite" + where, trial=cu, test=cv, **tag)
+        ctx.reached("blocks-on-oriented-facet-basis")
+    ctx.nontrivial(str(layout_key(rec.make())), "split-facets", type(mesh).__name__)
+    ctx.sample(dict(tag, variants=[v[0] for v in variants]), per_family=1)
+
+
+def vector_blocks(ctx, rng, rec, mc, mesh, basis=None, where=""):
+    """The block clause for ElementVector(e, n): the form sum_ij c_ij u_i v_j + d_ij d_a u_i d_b v_j coupled over the
+    components equals, under split_indices, the n x n block matrix of scalar forms on the split_bases.  `basis`: a
+    ready-made (facet) basis of the vector element instead of the cell basis on the whole mesh."""
+    import skfem
+    if basis is None:
+        basis = skfem.CellBasis(mesh, rec.make())
+    elem = basis.elem
     n = elem.dim
     gd = mesh.dim()
-    basis = skfem.CellBasis(mesh, elem)
     c = rng.integers(1, 9, size=(n, n)) / 4.0 * rng.choice([-1.0, 1.0], size=(n, n))
     d = rng.integers(1, 9, size=(n, n)) / 4.0
     ia, ib = rng.integers(0, gd, size=(n, n)), rng.integers(0, gd, size=(n, n))
@@ -248,7 +433,7 @@ def vector_blocks(ctx, rng, rec, mc, mesh):
     tag = dict(elem=rec.name, mesh=type(mesh).__name__, desc=mc.desc)
     ok = len(ixs) == n and len(sb) == n
     ctx.check("split-indices-partition", ok and np.array_equal(np.sort(np.concatenate(ixs)), np.arange(basis.N)),
-              mech="split-indices:Vector", sizes=[len(i) for i in ixs], N=int(basis.N), **tag)
+              mech="split-indices:Vector" + where, sizes=[len(i) for i in ixs], N=int(basis.N), **tag)
     if not ok:
         return
     scale = float(np.abs(A).max()) + 1e-300
@@ -259,16 +444,19 @@ def vector_blocks(ctx, rng, rec, mc, mesh):
                                    ).assemble(sb[i], sb[j])
             blocks[j][i] = B
             ctx.close("coupled-equals-blocks", A[np.ix_(ixs[j], ixs[i])], B.toarray(), rtol=1e-11, scale=scale,
-                      mech="coupled-block:Vector", trial=i, test=j, **tag)
+                      mech="coupled-block:Vector" + where, trial=i, test=j, **tag)
     M = skfem.utils.bmat(blocks, "csr")
     perm = np.concatenate(ixs)
-    ctx.close("bmat-equals-coupled", M.toarray(), A[np.ix_(perm, perm)], rtol=1e-11, scale=scale, mech="bmat:Vector", **tag)
+    ctx.close("bmat-equals-coupled", M.toarray(), A[np.ix_(perm, perm)], rtol=1e-11, scale=scale, mech="bmat:Vector" + where, **tag)
     want = np.cumsum([len(i) for i in ixs])[:-1].tolist()
     ctx.check("bmat-block-offsets", list(M.blocks) == want, mech="bmat-blocks-attribute", got=list(M.blocks), want=want, **tag)
-    ctx.reached("vector-element-blocks")
-    if n != gd:
-        ctx.reached("vector-element-blocks-components-differ-from-dimension")
-    ctx.nontrivial(str(layout_key(elem)) + f"x{n}", "coupled-blocks", type(mesh).__name__)
+    if where:
+        ctx.reached("vector-element-blocks" + where)
+    else:
+        ctx.reached("vector-element-blocks")
+        if n != gd:
+            ctx.reached("vector-element-blocks-components-differ-from-dimension")
+    ctx.nontrivial(str(layout_key(elem)) + f"x{n}", "coupled-blocks" + where, type(mesh).__name__)
 
 
 def coupled_blocks(ctx, k, kind):
@@ -737,17 +925,20 @@ def facet_subsets(ctx, rng, skfem, mesh, ur, fb_all, tag):
             ctx.reached("facet-partition")
 
 
+LOCAL_PAIRS = {"line": [("ElementLineP2", "ElementLineP1"), ("ElementLineP1", "ElementLineP1"), ("ElementLineP1DG", "ElementLineP1DG")],
+               "tri": [("ElementTriP2", "ElementTriP1"), ("ElementTriP1", "ElementTriP2"), ("ElementTriP1DG", "ElementTriP1DG"),
+                       ("ElementTriRT1", "ElementTriP0"), ("ElementTriP2", "ElementTriP2")],
+               "quad": [("ElementQuad2", "ElementQuad1"), ("ElementQuad1", "ElementQuad1"), ("ElementQuad1DG", "ElementQuad1DG")],
+               "tet": [("ElementTetP2", "ElementTetP1"), ("ElementTetP1", "ElementTetP1"), ("ElementTetN1", "ElementTetRT1")],
+               "hex": [("ElementHex1", "ElementHex0"), ("ElementHex1", "ElementHex1")],
+               "wedge": [("ElementWedge1", "ElementWedge1")]}
+
+
 def local_matrices(ctx, k, kind):
     """tolocal / fromlocal / inverse / dot / dense-sparse on square and rectangular elemental data."""
     import skfem
     rng = ctx.rng()
-    pairs = {"line": [("ElementLineP2", "ElementLineP1"), ("ElementLineP1", "ElementLineP1"), ("ElementLineP1DG", "ElementLineP1DG")],
-             "tri": [("ElementTriP2", "ElementTriP1"), ("ElementTriP1", "ElementTriP2"), ("ElementTriP1DG", "ElementTriP1DG"),
-                     ("ElementTriRT1", "ElementTriP0"), ("ElementTriP2", "ElementTriP2")],
-             "quad": [("ElementQuad2", "ElementQuad1"), ("ElementQuad1", "ElementQuad1"), ("ElementQuad1DG", "ElementQuad1DG")],
-             "tet": [("ElementTetP2", "ElementTetP1"), ("ElementTetP1", "ElementTetP1"), ("ElementTetN1", "ElementTetRT1")],
-             "hex": [("ElementHex1", "ElementHex0"), ("ElementHex1", "ElementHex1")],
-             "wedge": [("ElementWedge1", "ElementWedge1")]}[kind]
+    pairs = LOCAL_PAIRS[kind]
     un, vn = pairs[k % len(pairs)]
     mc = G.first_order(rng, kind)
     tries = 0
@@ -892,6 +1083,187 @@ def sum_values(u, v):
     return pr
 
 
+ADD_DTYPES = (("float64", np.float64), ("complex128", np.complex128), ("float32", np.float32), ("int64", np.int64),
+              ("complex64", np.complex64))
+
+
+def own_tensor(coo, absolute=False):
+    """The global tensor one elemental-data object stands for: the harness' own scatter-add of its values at its
+    indices, in double precision (complex when the values are)."""
+    data = np.asarray(coo.data)
+    if absolute:
+        data = np.abs(data).astype(np.float64)
+    else:
+        data = data.astype(np.complex128 if data.dtype.kind == "c" else np.float64)
+    if len(coo.shape) == 0:
+        return data.sum()
+    out = np.zeros(tuple(int(n) for n in coo.shape), dtype=data.dtype)
+    np.add.at(out, tuple(np.asarray(coo.indices).astype(np.int64)), data)
+    return out
+
+
+class Operand:
+    """One elemental-data object with the harness' own dense tensor (cached)."""
+
+    def __init__(self, name, coo):
+        self.name, self.coo = name, coo
+        self.dtype = np.asarray(coo.data).dtype
+        self.T = own_tensor(coo)
+        self.absT = own_tensor(coo, absolute=True)
+
+
+def is_single(dt):
+    dt = np.dtype(dt)
+    return dt.kind in "fc" and dt.itemsize <= (8 if dt.kind == "c" else 4)
+
+
+def judge_sum(ctx, S, ops, how, tag, xs=()):
+    """S was obtained by adding the elemental data `ops` (in this order, by `how`).  Oracle: the sum of the operands' own
+    dense tensors in double precision (numpy's type promotion keeps every operand exactly: int64 / float32 -> float64,
+    anything + complex -> complex); and, literally, the sum of the operands' default conversions."""
+    import functools
+    import operator
+    M = "coo-add"
+    wide = np.result_type(*[o.dtype for o in ops])
+    single = is_single(wide)                      # the sum itself is held in single precision
+    rt = 1e-5 if single else 1e-12
+    ref = functools.reduce(operator.add, [o.T for o in ops])
+    mag = functools.reduce(operator.add, [o.absT for o in ops])
+    scale = float(np.max(mag)) + 1e-300
+    nd = len(ops[0].coo.shape)
+    tens = ("functional", "linear", "bilinear")[nd]
+    key = "+".join(o.name for o in ops)
+
+    def mech(m):
+        return f"coo-add-dtypes:{tens}:{m}:{how}:{key}"
+    d = dict(tag, operands=key, how=how, sum_dtype=str(np.asarray(S.data).dtype))
+    ctx.check(M, tuple(S.shape) == tuple(ops[0].coo.shape), mech=mech("shape"), shape=tuple(S.shape), **d)
+    if nd >= 1:
+        ctx.close(M, S.toarray(), ref, rtol=rt, scale=scale, mech=mech("toarray"), **d)
+    if nd == 2:
+        ctx.close(M, S.tocsr().toarray(), ref, rtol=rt, scale=scale, mech=mech("tocsr"), **d)
+    dflt = S.todefault()
+    dflt = dflt.toarray() if nd == 2 else np.asarray(dflt)
+    ctx.close(M, dflt, ref, rtol=rt, scale=scale, mech=mech("todefault"), **d)
+    # literally the property: the assembled sum is the sum of the assembled operands (each in its own precision)
+    lit = functools.reduce(operator.add, [o.coo.todefault() for o in ops])
+    lit = lit.toarray() if nd == 2 else np.asarray(lit)
+    ctx.close(M, dflt, lit, rtol=1e-5 if any(is_single(o.dtype) for o in ops) else 1e-12, scale=scale,
+              mech=mech("sum-of-assembled"), **d)
+    if nd == 2 and S.shape[0] == S.shape[1]:
+        rows = float(np.max(mag.sum(axis=1)))
+        for xname, xv in xs:
+            ctx.close("dot-equals-matvec", S.dot(xv), ref @ xv, rtol=1e-5 if single else 1e-11,
+                      scale=rows * float(np.abs(xv).max()) + 1e-300, mech=mech("dot-" + xname), **d)
+    # reach: which operand could not hold the other
+    for a, b in zip(ops[:-1], ops[1:]):
+        if not np.can_cast(b.dtype, a.dtype, "safe"):
+            ctx.reached("coo-add:left-operand-of-narrower-dtype")
+        if not np.can_cast(a.dtype, b.dtype, "safe"):
+            ctx.reached("coo-add:right-operand-of-narrower-dtype")
+        if a.dtype.kind != "c" and b.dtype.kind == "c":
+            ctx.reached("coo-add:real-plus-complex")
+        if a.dtype.kind == "c" and b.dtype.kind != "c":
+            ctx.reached("coo-add:complex-plus-real")
+
+
+def dtype_operands(ctx, build, tensor):
+    """Elemental data of one integrand in every data type the library produces: build(coef, dtype) -> COOData.  The
+    integer data are the truncated values of the integrand scaled to O(1000)."""
+    out = {}
+    first = build(1.0, np.float64)
+    top = float(np.abs(np.asarray(first.data)).max()) if np.asarray(first.data).size else 0.0
+    if not np.isfinite(top) or top == 0.0:
+        ctx.drop("elemental-data-all-zero:" + tensor)
+        return out
+    coefs = {"float64": 1.0, "complex128": complex(0.5, -1.25), "float32": 0.75,
+             "int64": float(2.0 ** np.ceil(np.log2(1000.0 / top))), "complex64": complex(-0.25, 1.5)}
+    for nm, dt in ADD_DTYPES:
+        try:
+            coo = first if nm == "float64" else build(coefs[nm], dt)
+        except (TypeError, ValueError):
+            ctx.drop(f"elemental-data-of-dtype-{nm}-not-produced:{tensor}")
+            continue
+        if np.asarray(coo.data).dtype != np.dtype(dt):
+            ctx.drop(f"elemental-data-dtype-differs-from-request:{tensor}:{nm}")
+            continue
+        out[nm] = Operand(nm, coo)
+    return out
+
+
+def coo_add_mixed(ctx, k, kind):
+    """Adding elemental-data objects of DIFFERENT data types (float64, complex128, float32, int64, complex64: real
+    stiffness + complex absorbing boundary term and the like) in both orders, with `+` and with sum() over lists that
+    start with either: every conversion of the sum (toarray, tocsr, todefault, dot) equals the sum of the operands'
+    tensors.  Second operand on the boundary facets / on a subset of the cells / on the same cells."""
+    import skfem
+    rng = ctx.rng()
+    pairs = LOCAL_PAIRS[kind]
+    un, vn = pairs[k % len(pairs)]
+    ur, vr = EL.by_name(un), EL.by_name(vn)
+    mc, mesh = small_mesh(ctx, rng, kind, ctx.scale(10, 30))
+    nt = mesh.t.shape[1]
+    order = 2 * max(ur.make().maxdeg, vr.make().maxdeg)
+    ub = skfem.CellBasis(mesh, ur.make(), intorder=order)
+    vb = ub.with_element(vr.make()) if vn != un else ub
+    tag = dict(trial=un, test=vn, mesh=type(mesh).__name__, desc=mc.desc)
+    domains = [("same-cells", ub, vb)]
+    if nt >= 2:
+        S = np.sort(rng.choice(nt, size=max(1, nt // 2), replace=False)).astype(np.int32)
+        us = skfem.CellBasis(mesh, ur.make(), intorder=order, elements=S)
+        domains.append(("cell-subset", us, us.with_element(vr.make()) if vn != un else us))
+    if ur.facet_basis and vr.facet_basis and kind != "wedge":
+        uf = skfem.FacetBasis(mesh, ur.make(), intorder=order)
+        domains.append(("boundary-facets", uf, uf.with_element(vr.make()) if vn != un else uf))
+
+    def family(ub_, vb_):
+        """The three kinds of elemental data of random integrands on (ub_, vb_), in every data type."""
+        terms, ncu, ncv = make_coupling(rng, ub_, vb_)
+        inner = bil_from(terms, ncu)
+
+        def lin(*a):
+            return sum(c * (a[-1].x[0] + 2.0) * apply_op(a[:-1], ov) for c, ou, ov in terms)
+        fam = {"bilinear": dtype_operands(ctx, lambda cf, dt: skfem.BilinearForm(lambda *a: cf * inner(*a), dtype=dt).elemental(ub_, vb_),
+                                          "bilinear"),
+               "linear": dtype_operands(ctx, lambda cf, dt: skfem.LinearForm(lambda *a: cf * lin(*a), dtype=dt).elemental(vb_), "linear")}
+        # functionals take the data type of the integrand
+        fn = {}
+        for nm, cf in (("float64", 1.0), ("complex128", complex(0.5, -1.25))):
+            fn[nm] = Operand(nm, skfem.Functional(lambda w: cf * (w.x[0] + 2.0) * (1.0 + w.h)).coo_data(ub_))
+        fam["functional"] = fn
+        return fam
+    A = family(ub, vb)
+    xs = ()
+    if ub.N == vb.N:
+        xs = (("float64", rng.standard_normal(ub.N)), ("complex128", rng.standard_normal(ub.N) + 1j * rng.standard_normal(ub.N)))
+    for dname, ub2, vb2 in domains:
+        B = family(ub2, vb2)
+        C = family(ub2, vb2) if dname == "same-cells" else A
+        t2 = dict(tag, second_operand=dname)
+        for tens in ("bilinear", "linear", "functional"):
+            a, b, c = A[tens], B[tens], C[tens]
+            # every ordered pair of data types (both orders of every mixed pair)
+            for na in a:
+                for nb in b:
+                    judge_sum(ctx, a[na].coo + b[nb].coo, [a[na], b[nb]], "add", t2, xs)
+            # sum() over lists of three starting with every data type (sum starts from the integer 0), and `+` chained
+            names = [nm for nm, _ in ADD_DTYPES if nm in a and nm in b and nm in c]
+            for i in range(len(names)):
+                for trip in ((names[i], names[(i + 1) % len(names)], names[(i + 2) % len(names)]),
+                             (names[i], names[i - 1], names[i - 2])):
+                    if len(names) < 3:
+                        trip = trip[:2]
+                    ops = [src[nm] for src, nm in zip((a, b, c), trip)]
+                    judge_sum(ctx, sum([o.coo for o in ops]), ops, "sum-of-list", t2, xs)
+                    if len({o.dtype for o in ops}) > 1:
+                        ctx.reached("coo-add:sum-of-list-of-mixed-dtypes")
+            if len(a) > 1 and len(b) > 1:
+                ctx.reached(f"coo-add:mixed-dtypes:{tens}")
+        ctx.reached("coo-add:second-operand-on-" + dname)
+    ctx.nontrivial((un, vn), "coo-add-mixed-dtypes", type(mesh).__name__)
+    ctx.sample(dict(tag, dtypes=sorted(A["bilinear"]), domains=[d[0] for d in domains]), per_family=1)
+
+
 def bmat_directed(ctx, k):
     """skfem.utils.bmat with 2-5 block columns of unequal widths (matrices, None entries, a trailing vector column)."""
     import skfem
@@ -925,3 +1297,7 @@ FAMILIES += [Family("split-wedge", fam(split_interp, "wedge"), 4, 48), Family("b
              Family("partition-wedge", fam(partition_sum, "wedge"), 2, 24), Family("local-wedge", fam(local_matrices, "wedge"), 1, 12)]
 for kd, q, th in (("tri", 5, 100), ("quad", 3, 60), ("tet", 3, 60), ("hex", 2, 40)):
     FAMILIES.append(Family("idx-" + kd, fam(asm_product, kd), q, th))
+for kd, q, th in (("line", 3, 30), ("tri", 5, 100), ("quad", 3, 60), ("tet", 3, 60), ("hex", 2, 40), ("wedge", 1, 10)):
+    FAMILIES.append(Family("cooadd-" + kd, fam(coo_add_mixed, kd), q, th))
+for kd, q, th in (("line", 6, 60), ("tri", 16, 320), ("quad", 13, 200), ("tet", 16, 200), ("hex", 13, 130)):
+    FAMILIES.append(Family("splitfacet-" + kd, fam(split_facets, kd), q, th))
